@@ -700,9 +700,9 @@ func (r *R) Gen(ctx sdk.Context, g *hx.Rng) (line string) {
 		return r.genPrice(g)
 	}
 	v := r.read(ctx)
-	w := []int{30, 14, 10, 8, 8, 11, 6, 2, 8}
+	w := []int{30, 14, 10, 8, 8, 11, 6, 2, 8, 1, 2}
 	if len(v.pools) == 0 {
-		w = []int{4, 40, 2, 2, 2, 6, 3, 1, 2}
+		w = []int{4, 40, 2, 2, 2, 6, 3, 1, 2, 1, 1}
 	} else if len(v.pools) < 3 {
 		w[1] = 22
 	}
@@ -723,6 +723,10 @@ func (r *R) Gen(ctx sdk.Context, g *hx.Rng) (line string) {
 		return r.genBlock(g, v)
 	case 7:
 		return r.genParams(g, v)
+	case 9:
+		return "coinswap export"
+	case 10:
+		return "coinswap reimport"
 	default:
 		return r.genPrice(g)
 	}
